@@ -34,7 +34,16 @@
 (*           is followed by a second comment (a reader that misses the         *)
 (*           terminator swallows the sibling).  One slice per position.        *)
 (*                                                                             *)
+(*  "bytes"  EVERY byte value 0x21..0xFF except the markup characters as text   *)
+(*           content b, bx, xb, bb directly after the start tag, after a       *)
+(*           leading comment, after a child, before a child, padded with       *)
+(*           blanks on both sides, and as attribute value in both quote        *)
+(*           styles (one slice per position; characters come from the table    *)
+(*           XML_BYTES, see XmlDoc).                                           *)
+(*                                                                             *)
 (* Laws:                                                                       *)
+(*   ByteLaw     a document of the "bytes" family parses to exactly that        *)
+(*               content / value: no byte but space, tab, CR, LF is trimmed    *)
 (*   DashLaw     a document of the "dashes" family parses to the tree without   *)
 (*               the comments: a comment ends at the first "-->" after its     *)
 (*               opener, whatever dash runs its body holds                     *)
@@ -124,6 +133,7 @@ SliceSeq ==
   \o [i \in 1..Len(CoreSeq) |-> Sl("prefix", i, 0)]
   \o [i \in 1..3 |-> Sl("content", i, 0)]
   \o [i \in 1..6 |-> Sl("dashes", i, 0)]
+  \o [i \in 1..7 |-> Sl("bytes", i, 0)]
   \o (IF SPLIT2 THEN [i \in 1..64 |-> Sl("short", 1 + (i - 1) \div 8, 1 + Md(i - 1, 8))] \o <<Sl("short", 0, 0)>>
       ELSE [i \in 1..8 |-> Sl("short", i, 0)] \o <<Sl("short", 0, 0)>>)                          \* (0, 0): the strings shorter than the prefix
 
@@ -265,6 +275,39 @@ DashSlice(sl, file) ==
      ELSE PrintT(<<"dash law fails", sl, CHOOSE b \in DashBodySet : ~DashEval(sl.x, b).law>>) /\ FALSE
 
 \* ---------------------------------------------------------------------------
+\* family "bytes": every byte value as (part of) text content and attribute values
+\* ---------------------------------------------------------------------------
+TabOk == /\ ByteTab.codes = [i \in 1..223 |-> i + 32] /\ Len(ByteTab.chars) = 223
+         /\ \A i \in 1..223 : Len(ByteTab.chars[i]) = 1
+         /\ \A i \in 1..94 : ByteTab.chars[i] = Ascii[i + 4]                  \* codes 33..126: the printable ASCII characters, in order
+         /\ Cardinality(ByteChar) = 129 /\ ByteChar \cap Char = {}            \* codes 127..255: 129 further, distinct characters
+ByteConts(b) == {<<b>>, <<b, "x">>, <<"x", b>>, <<b, b>>}
+ByteDoc(pos, C) ==
+  CASE pos = 1 -> Open("a") \o C \o Close("a")
+    [] pos = 2 -> Open("a") \o Cmt(<<"c">>) \o C \o Close("a")
+    [] pos = 3 -> Open("a") \o El("b") \o C \o Close("a")
+    [] pos = 4 -> Open("a") \o C \o El("b") \o Close("a")
+    [] pos = 5 -> Open("a") \o <<" ">> \o C \o <<"\n">> \o Close("a")
+    [] pos = 6 -> <<"<", "a", " ", "q", "=", DQ>> \o C \o <<DQ, "/", ">">>
+    [] pos = 7 -> <<"<", "a", " ", "q", "=", SQ>> \o C \o <<SQ, "/", ">">>
+ByteTree(pos, C) ==
+  CASE pos \in {1, 2, 5} -> Node(<<"a">>, <<>>, C, <<>>)
+    [] pos \in {3, 4} -> Node(<<"a">>, <<>>, C, <<Lf("b")>>)
+    [] pos \in {6, 7} -> Node(<<"a">>, << <<<<"q">>, C>> >>, <<>>, <<>>)
+ByteCodes(pos) == {c \in 33..255 : ChrOf(c) \notin ({"<", "&"} \cup (IF pos = 6 THEN {DQ, "\\"} ELSE IF pos = 7 THEN {SQ, "\\"} ELSE {}))}
+ByteEval(pos, C) ==
+  LET d == ByteDoc(pos, C)
+      p == ParseDoc(d)
+  IN [law |-> p = [ok |-> TRUE, tree |-> DocNode(<<ByteTree(pos, C)>>), ew |-> FALSE],
+      case |-> [a |-> "Read", arg |-> [doc |-> Join(d)], cls |-> DocClass(p, d), exp |-> [outcome |-> "ok", tree |-> TreeJ(DocNode(<<ByteTree(pos, C)>>))]]]
+ByteSlice(sl, file) ==
+  \E Ev \in {{ByteEval(sl.x, C) : C \in UNION {ByteConts(ChrOf(c)) : c \in ByteCodes(sl.x)}}} :
+     IF TabOk /\ \A e \in Ev : e.law
+     THEN ndJsonSerialize(file, SetToSeq({e.case : e \in Ev}))
+          /\ PrintT(<<"xmlgen", sl, "byte values", Cardinality(ByteCodes(sl.x)), "documents", Cardinality(Ev)>>)
+     ELSE PrintT(<<"byte law fails", sl, TabOk>>) /\ FALSE
+
+\* ---------------------------------------------------------------------------
 PolicyCase == [a |-> "Policy", arg |-> [what |-> "any file"], cls |-> "", exp |-> [outcomes |-> SetToSeq(SafeOutcomes)]]
 
 Do(i) ==
@@ -275,6 +318,7 @@ Do(i) ==
        [] sl.fam = "short" -> ShortSlice(sl, file)
        [] sl.fam = "content" -> ContentSlice(sl, file)
        [] sl.fam = "dashes" -> DashSlice(sl, file)
+       [] sl.fam = "bytes" -> ByteSlice(sl, file)
 
 Init == slice \in {i \in DOMAIN SliceSeq : FAMS = "all" \/ SliceSeq[i].fam = FAMS}
 Next == \/ slice > 0 /\ Do(slice) /\ slice' = 0 - slice
